@@ -1,4 +1,177 @@
-import GunYu.Model.Sender
-import GunYu.Model.Target
+/-
+  C02 — A crash at any instant loses no source write; transactional mode
+  repeats none.
+
+  The proof is about ORDER ON THE WIRE. Give each forwarded data command the key
+  2·(stream offset at which it ends) and each checkpoint write `<rid>_offset o`
+  the key 2·o+1 (`keys`, Proofs/SenderWire.lean). `wire_ordered` shows that for
+  every configuration and every schedule the key sequence the target receives is
+  non-decreasing. Everything else follows from that and from MULTI/EXEC atomicity
+  on the target (Model/Target.lean):
+
+   * a command received AFTER a checkpoint write o has offset > o, and whatever
+     is still queued or not yet received has offset > o: the stored position
+     never covers a write (or database switch: SELECT items are commands too)
+     the target has not received — so a restart, which re-reads the stream from
+     the stored position, skips nothing, at ANY crash point (any wire prefix);
+   * a command received BEFORE a checkpoint write o has offset ≤ o, and in
+     transactional mode a command and the checkpoint write that covers it are in
+     the same MULTI/EXEC block, which a crash applies entirely or not at all: a
+     restart from the stored position repeats nothing.
+-/
+import GunYu.Proofs.SenderWire
+import GunYu.Proofs.TargetSeq
+
 namespace GunYu.Props.C02
+open GunYu GunYu.Sender GunYu.Target
+
+/-- item offsets strictly increase along the schedule (every item is the end of
+    a distinct source command), starting above `last` -/
+def SMono : Int → List Ev → Prop
+  | _, [] => True
+  | last, .item it :: rest => last < it.offset ∧ SMono it.offset rest
+  | last, _ :: rest => SMono last rest
+
+theorem smono_step (s : SState) (ev : Ev) (rest : List Ev) (h : SMono s.lastOffset (ev :: rest)) :
+    (∀ it, ev = .item it → s.lastOffset < it.offset) ∧ SMono (newLast s ev) rest := by
+  cases ev <;> simp [SMono, newLast] at h ⊢ <;> first | exact h | exact ⟨h.1, h.2⟩
+
+/-- the whole run keeps the wire ordered, and bounded by what is still pending -/
+theorem run_ok (c : SCfg) (s : SState) (evs : List Ev) (hq : QOk s.queue s.lastOffset)
+    (hm : SMono s.lastOffset evs) :
+    StepOK s.queue s.lastOffset (run c s evs).1.queue (run c s evs).1.lastOffset
+      (keys (run c s evs).2) := by
+  induction evs generalizing s with
+  | nil => exact ⟨hq, within_nil _ _, Int.le_refl _⟩
+  | cons ev rest ih =>
+    obtain ⟨hlt, hrest⟩ := smono_step s ev rest hm
+    have h1 := step_ok c s ev hq hlt
+    simp only [run]
+    split
+    · exact h1
+    · have hl := (step_cp c s ev).1
+      have h2 := ih (step c s ev).1 h1.1 (by rw [hl]; exact hrest)
+      rw [keys_append]
+      exact stepOK_trans h1 h2
+
+/-- **The wire is ordered**: for every configuration, every stream with
+    increasing offsets and every schedule of ticks, the key sequence is
+    non-decreasing. -/
+theorem wire_ordered (c : SCfg) (evs : List Ev) (hm : SMono initS.lastOffset evs) :
+    (keys (run c initS evs).2).Pairwise (· ≤ ·) :=
+  (run_ok c initS evs (qok_nil _) hm).2.1.1
+
+/-- **Nothing received after a stored position is covered by it** (no write
+    skipped): wherever `<rid>_offset o` sits on the wire, every data command
+    after it ends at an offset > o. -/
+theorem nothing_skipped (c : SCfg) (evs : List Ev) (hm : SMono initS.lastOffset evs)
+    (A B : List Int) (o : Int) (hsplit : keys (run c initS evs).2 = A ++ (2 * o + 1) :: B) :
+    ∀ y, 2 * y ∈ B → o < y := by
+  intro y hy
+  have h := wire_ordered c evs hm
+  rw [hsplit, List.pairwise_append] at h
+  have := (List.pairwise_cons.mp h.2.1).1 _ hy
+  omega
+
+/-- **Everything received before a stored position is covered by it** (no write
+    repeated once the position is durable): every data command before
+    `<rid>_offset o` on the wire ends at an offset ≤ o. -/
+theorem nothing_left_uncovered (c : SCfg) (evs : List Ev) (hm : SMono initS.lastOffset evs)
+    (A B : List Int) (o : Int) (hsplit : keys (run c initS evs).2 = A ++ (2 * o + 1) :: B) :
+    ∀ y, 2 * y ∈ A → y ≤ o := by
+  intro y hy
+  have h := wire_ordered c evs hm
+  rw [hsplit, List.pairwise_append] at h
+  have := h.2.2 _ hy (2 * o + 1) (List.mem_cons_self ..)
+  omega
+
+/-- **What is still queued is beyond every stored position**: a command the
+    loop holds but has not sent (e.g. the SELECT or the commands of an open
+    transaction) ends after every checkpoint offset written so far. -/
+theorem pending_not_covered (c : SCfg) (evs : List Ev) (hm : SMono initS.lastOffset evs) :
+    ∀ o ∈ cpOffsets (run c initS evs).2, ∀ i ∈ (run c initS evs).1.queue, o < i.offset := by
+  intro o ho i hi
+  obtain ⟨hqok, hw, _⟩ := run_ok c initS evs (qok_nil _) hm
+  -- the key of that checkpoint write is on the wire
+  have hk : 2 * o + 1 ∈ keys (run c initS evs).2 := by
+    unfold cpOffsets at ho
+    unfold keys
+    obtain ⟨b, hb, hob⟩ := List.mem_flatMap.mp ho
+    refine List.mem_flatMap.mpr ⟨b, hb, ?_⟩
+    unfold cpOffsetsB at hob
+    unfold keysB
+    obtain ⟨r, hr, hro⟩ := List.mem_filterMap.mp hob
+    refine List.mem_filterMap.mpr ⟨r, hr, ?_⟩
+    cases r <;> simp_all [cpOfReq, keyOfReq]
+  have hle := (hw.2 _ hk).2
+  -- lowkey of a non-empty queue is twice its head, and the head is the smallest
+  cases hq : (run c initS evs).1.queue with
+  | nil => rw [hq] at hi; cases hi
+  | cons j q =>
+    rw [hq] at hle hi hqok
+    simp only [lowkey] at hle
+    rcases List.mem_cons.mp hi with rfl | hiq
+    · omega
+    · have : j.offset < i.offset := by
+        have hs := hqok.1
+        simp only [List.map_cons, List.pairwise_cons] at hs
+        exact hs.1 _ (List.mem_map.mpr ⟨i, hiq, rfl⟩)
+      omega
+
+/-! ### Atomicity on the target: the crash points of transactional mode -/
+
+/-- A crash inside a MULTI/EXEC block (after MULTI and any `j` of its requests,
+    before EXEC) leaves data, checkpoint and selected DB exactly as they were
+    before the block: crash points inside a batch collapse to the batch
+    boundary before it. -/
+theorem crash_inside_block_is_boundary (done : List Batch) (hwf : AllWF done) (body : List Req)
+    (hb : ∀ r ∈ body, Plain r = true) (t : TState) (hq : t.queued = none) (j : Nat)
+    (hj : j ≤ body.length) :
+    let before := applyLog t done.flatten
+    let crashed := applyLog t (done.flatten ++ ([Req.multi] ++ body ++ [Req.exec]).take (j + 1))
+    crashed.applied = before.applied ∧ crashed.cps = before.cps := by
+  simp only
+  have hq' := (applyLog_out done hwf t hq).1
+  have : applyLog t (done.flatten ++ ([Req.multi] ++ body ++ [Req.exec]).take (j + 1)) =
+      applyLog (applyLog t done.flatten) (([Req.multi] ++ body ++ [Req.exec]).take (j + 1)) := by
+    simp [applyLog, List.foldl_append]
+  rw [this]
+  -- inside the block nothing is applied
+  have htake : ([Req.multi] ++ body ++ [Req.exec]).take (j + 1) = [Req.multi] ++ body.take j := by
+    simp only [List.cons_append, List.take_succ_cons, List.nil_append]
+    rw [List.take_append_of_le_length hj]
+  rw [htake]
+  unfold applyLog
+  rw [List.foldl_append]
+  have h1 : [Req.multi].foldl applyReq (done.flatten.foldl applyReq t) =
+      { (done.flatten.foldl applyReq t) with queued := some [] } := by
+    have : (done.flatten.foldl applyReq t).queued = none := hq'
+    simp [applyReq, this]
+  rw [h1]
+  have h2 := applyLog_queue (body.take j) (fun r hr => hb r (List.mem_of_mem_take hr))
+    { (done.flatten.foldl applyReq t) with queued := some [] } [] rfl
+  unfold applyLog at h2
+  rw [h2]
+  exact ⟨rfl, rfl⟩
+
+/-- the checkpoint offset is written into the database the connection is in -/
+theorem cp_lands_in_current_db (t : TState) (o : Int) :
+    (getCp (execReq t (.cpOffset o)).cps t.cur).offset = some o ∧
+    (execReq t (.cpOffset o)).cur = t.cur := by
+  simp [execReq, getCp, setCp]
+
+/-! Non-vacuity: transactional run with a SELECT barrier and a transaction;
+    the key sequence is sorted, commands and checkpoints interleaved. -/
+def exCfg : SCfg := { txnMode := true, resume := true, batchCount := 2, batchBytes := 1000 }
+def exEvs : List Ev :=
+  [ .item { cmd := [115,101,116], args := [[97],[98]], offset := 1030, db := 0 },
+    .item { cmd := bSelect, args := [[49]], offset := 1053, db := 1 },
+    .keepaliveTick,
+    .item { cmd := bMulti, args := [], offset := 1068, db := 1 },
+    .item { cmd := [115,101,116], args := [[99],[100]], offset := 1095, db := 1 },
+    .item { cmd := bExec, args := [], offset := 1109, db := 1 } ]
+
+example : SMono initS.lastOffset exEvs := by simp [SMono, exEvs, initS]
+example : keys (run exCfg initS exEvs).2 = [2060, 2061, 2106, 2107, 2107, 2190, 2219] := by decide +kernel
+
 end GunYu.Props.C02
